@@ -4,7 +4,8 @@
    standard).  Statements only; proofs in Proofs/PcrPts.v.
    The end-to-end clause for PCR/OPCR inside an adaptation field is stated in C03 (adaptation-field
    model); the end-to-end clause for PTS/DTS inside a PES header is C11_pes_pts_dts_readback. *)
-From Gots Require Import Base.Prelude Model.Pts Model.PcrCodec Model.Pes Spec.TimestampSpec Proofs.PcrPts.
+From Gots Require Import Base.Prelude Model.Pts Model.PcrCodec Model.Pes Spec.TimestampSpec Proofs.PcrPts
+  Proofs.PesDecode Proofs.PesCreate.
 Import TsSpec.
 Local Open Scope N_scope.
 Notation PCR_MAX := (8589934592 * 300) (only parsing).   (* 2^33 * 300 *)
@@ -22,7 +23,7 @@ Print Assumptions C04_pcr_roundtrip.
    holds for every uint64 argument *)
 Theorem C04_pcr_layout : forall v old, v < 18446744073709551616 -> (6 <= length old)%nat ->
   PcrCodec.insert_pcr old v = Ok (pcr_bytes v ++ skipn 6 old).
-Proof. intros v old. exact (insert_pcr_ok old v). Qed.
+Proof. exact pcr_layout. Qed.
 Print Assumptions C04_pcr_layout.
 
 (* the byte equations are the 48-bit field  base(33) | 111111 | ext(9)  of ISO 13818-1 cut into bytes *)
@@ -65,7 +66,7 @@ Print Assumptions C04_pcr_reencode.
 (* when the codecs do not return (C05): exactly on targets / inputs that are too short *)
 Theorem C04_pcr_panics_iff_short : forall b v,
   (PcrCodec.insert_pcr b v = Panic <-> (length b < 6)%nat) /\ (PcrCodec.extract_pcr b = Panic <-> (length b < 6)%nat).
-Proof. intros b v. split; [apply insert_pcr_panic_iff | apply extract_pcr_panic_iff]. Qed.
+Proof. exact pcr_panics_iff_short. Qed.
 Print Assumptions C04_pcr_panics_iff_short.
 
 (* ---------------- PTS / DTS ---------------- *)
@@ -79,7 +80,7 @@ Print Assumptions C04_pts_roundtrip.
    holds for every argument (bits above 32 are dropped) *)
 Theorem C04_pts_layout : forall v old, (5 <= length old)%nat ->
   Pts.insert_pts old v = Ok (ts_bytes 2 v ++ skipn 5 old).
-Proof. intros v old. exact (insert_pts_ok old v). Qed.
+Proof. exact pts_layout. Qed.
 Print Assumptions C04_pts_layout.
 
 Theorem C04_pts_layout_is_iso_field : forall p v, p < 16 -> v < T33 -> ser_ts p v = ts_bytes p v.
@@ -123,8 +124,31 @@ Print Assumptions C04_pts_reencode.
 
 Theorem C04_pts_panics_iff_short : forall b v,
   (Pts.insert_pts b v = Panic <-> (length b < 5)%nat) /\ (Pts.extract_time b = Panic <-> (length b < 5)%nat).
-Proof. intros b v. split; [apply insert_pts_panic_iff | apply extract_time_panic_iff]. Qed.
+Proof. exact pts_panics_iff_short. Qed.
 Print Assumptions C04_pts_panics_iff_short.
+
+(* ---------------- end to end: PTS/DTS carried in a PES header ---------------- *)
+(* (the PCR/OPCR-in-adaptation-field half of this clause is stated by the C03 group over the adaptation-field model) *)
+(* InsertPTS at offsets 9 and 14 of the bytes of any PES start that announces PTS and DTS, then NewPESHeader *)
+Theorem C04_pes_pts_dts_readback : forall b v1 v2, (19 <= length b)%nat ->
+  Pes.optional_fields_exist (nthN b 3) = true -> N.shiftr (N.land (nthN b 7) 192) 6 = 3 ->
+  v1 < T33 -> v2 < T33 ->
+  exists b1 b2 h, Pes.put_ts b 9 v1 = Ok b1 /\ Pes.put_ts b1 14 v2 = Ok b2 /\ Pes.new_pes_header b2 = Ok h /\
+    Pes.has_pts h = true /\ Pes.has_dts h = true /\ Pes.pts h = v1 /\ Pes.dts h = v2 /\
+    length b2 = length b /\ firstn 9 b2 = firstn 9 b /\ skipn 19 b2 = skipn 19 b.
+Proof. exact pes_pts_dts_readback. Qed.
+Print Assumptions C04_pes_pts_dts_readback.
+
+(* through the library's own builder: packet.WithPES(pkt, pts), packet.Payload / PESHeader, NewPESHeader *)
+Theorem C04_with_pes_readback : forall pkt pts, length pkt = 188%nat -> pts < T33 ->
+  Pes.pkt_payload_start pkt + 14 <= 188 ->
+  exists pkt' pay h, Pes.with_pes pkt pts = Ok pkt' /\ length pkt' = 188%nat /\
+    Pes.pkt_payload pkt' = Ok pay /\ (Pes.pkt_pusi pkt = true -> Pes.pkt_pes_header pkt' = Ok pay) /\
+    Pes.new_pes_header pay = Ok h /\
+    Pes.packetStartCodePrefix h = 1 /\ Pes.streamId h = 184 /\
+    Pes.has_pts h = true /\ Pes.has_dts h = false /\ Pes.pts h = pts.
+Proof. exact with_pes_readback. Qed.
+Print Assumptions C04_with_pes_readback.
 
 (* non-vacuity: concrete values with every slice populated (bit 32, the 15/14 boundary, extension bit 8) *)
 Example C04_nonvacuous :
